@@ -203,6 +203,19 @@ Fixpoint async_run (maxp : Z) (s : mstate) (cs : list call) (sels : list csel) :
   | _, _ => s
   end.
 
+(** The SYNCHRONOUS persister over a store whose individual operations may fail: [fails i] says whether
+    the [i]-th store operation of the call fails.  If the call's write fails, the call returns an error
+    with nothing applied - in particular no clean-up is attempted ([if let Ok(()) = write_status]) - and
+    the node stops; a failing removal is logged and skipped ([cleanup_in_range]) or aborts the rest
+    ([cleanup_stale_updates]): either way a SUBSET of the removals is applied.  Every such outcome is a
+    [csel]; [sel_of_fails] is the one of the in-range clean-up. *)
+Definition sel_of_fails (nops : nat) (fails : nat -> bool) : csel :=
+  if fails 0%nat then SelNone
+  else SelWrite (map (fun i => negb (fails (S i))) (seq 0 (pred nops))).
+Definition call_ops_f (maxp : Z) (s : mstate) (c : call) (fails : nat -> bool) : list mop * bool :=
+  let ops := call_ops maxp s c in
+  (sel_ops ops (sel_of_fails (List.length ops) fails), negb (fails 0%nat)).
+
 (** The in-memory monitors of a history (the monitor handed to each call). *)
 Definition next_mem (cur : monitor) (c : call) : monitor :=
   match c with CUpdate _ (Some _) mon => mon | _ => cur end.
